@@ -223,6 +223,27 @@ pub fn measure(kind: Kind, pattern: Pattern, n: usize, seed: u64) -> Measured {
         })
     });
     m.bulk_ops.insert("retain_mut_keep_all_ascending", (t, len));
+    // rejections chosen by priority: the greatest half, then (on a fresh queue) the smallest half
+    {
+        let mut ps: Vec<i32> = q.contents().iter().map(|x| x.1).collect();
+        ps.sort();
+        let median = ps.get(ps.len() / 2).copied().unwrap_or(0);
+        let (t, _) = timed(|| q.retain(|_, p| p.v < median));
+        m.bulk_ops.insert("retain_rejecting_greatest_half", (t, len));
+        drop(q);
+        let (_, q2) = build(kind, pattern, n, &mut r);
+        q = q2;
+        let mut ps: Vec<i32> = q.contents().iter().map(|x| x.1).collect();
+        ps.sort();
+        let median = ps.get(ps.len() / 2).copied().unwrap_or(0);
+        let l2 = q.len();
+        let (t, _) = timed(|| q.retain(|_, p| p.v >= median));
+        m.bulk_ops.insert("retain_rejecting_smallest_half", (t, l2));
+        drop(q);
+        let (_, q3) = build(kind, pattern, n, &mut r);
+        q = q3;
+    }
+    let len = q.len();
     let (t, _) = timed(|| q.retain_mut(|k, p| {
         p.v = -p.v;
         k.id() % 2 == 0
